@@ -211,11 +211,13 @@ func SaveCase(name string, v any) string {
 		dir = os.TempDir()
 	}
 	_ = os.MkdirAll(dir, 0o755)
-	p := filepath.Join(dir, fmt.Sprintf("%s-%d-%d.case.json", name, os.Getpid(), time.Now().UnixNano()))
 	b, err := json.MarshalIndent(v, "", " ")
 	if err != nil {
 		b = []byte(fmt.Sprintf("%q", fmt.Sprint(v)))
 	}
+	// the name is a pure function of the content: rapid only shrinks failures whose message is
+	// identical when the same input is re-run, and messages mention this path
+	p := filepath.Join(dir, fmt.Sprintf("%s-%016x.case.json", name, Hash64(string(b))))
 	_ = os.WriteFile(p, b, 0o644)
 	return p
 }
